@@ -137,6 +137,55 @@ pub fn main(a: &Args) {
         let w = tagged[rng.below(tagged.len())].clone();
         jobs.push((w, "listed-all", rng.below(24), k % 6));
     }
+    // the dictionary the applications really use: curated first, the user's words second. A user word that is
+    // another capitalisation of a curated entry, or new, is listed as the user wrote it
+    {
+        use harper_core::{MergedDictionary, MutableDictionary, WordMetadata};
+        let caps: Vec<&Vec<char>> = words.iter().filter(|w| w.len() >= 4 && w[0].is_ascii_uppercase() && w[1..].iter().all(|c| c.is_ascii_lowercase())).collect();
+        let lows: Vec<&Vec<char>> = words.iter().filter(|w| w.len() >= 4 && w.iter().all(|c| c.is_ascii_lowercase())).collect();
+        let mut user_words: Vec<Vec<char>> = Vec::new();
+        for _ in 0..a.num("user-words", 40) {
+            let c = rng.pick(&caps[..]);
+            let lower: Vec<char> = c.iter().map(|x| x.to_ascii_lowercase()).collect();
+            if !set.contains(&lower) { user_words.push(lower); }
+            let l = rng.pick(&lows[..]);
+            let mut cap = (*l).clone(); cap[0] = cap[0].to_ascii_uppercase();
+            let upper: Vec<char> = l.iter().map(|x| x.to_ascii_uppercase()).collect();
+            if !set.contains(&upper) && rng.chance(1, 3) { user_words.push(upper); }
+            if !set.contains(&cap) && rng.chance(1, 3) { user_words.push(cap); }
+        }
+        for w in ["zzyzxq", "Qwertzuv", "naïvetéx", "harperish", "O'Zzyzx"] { user_words.push(w.chars().collect()); }
+        user_words.sort(); user_words.dedup();
+        let mut user = MutableDictionary::new();
+        user.extend_words(user_words.iter().map(|w| (w.clone(), WordMetadata::default())));
+        for order in [0usize, 1] {
+            let mut merged = MergedDictionary::new();
+            if order == 0 { merged.add_dictionary(FstDictionary::curated()); merged.add_dictionary(std::sync::Arc::new(user.clone())); }
+            else { merged.add_dictionary(std::sync::Arc::new(user.clone())); merged.add_dictionary(FstDictionary::curated()); }
+            let merged = std::sync::Arc::new(merged);
+            let mut sc = SpellCheck::new(merged.clone(), Dialect::American);
+            for (k, w) in user_words.iter().enumerate() {
+                let ws: String = w.iter().collect();
+                let tpl = k % TEMPLATES.len();
+                let text = TEMPLATES[tpl].replace("{}", &ws);
+                let start = TEMPLATES[tpl].chars().position(|c| c == '{').unwrap();
+                let end = start + w.len();
+                let r = catch(|| { let doc = Document::new(&text, &PlainEnglish, &merged); sc.lint(&doc) });
+                let mut e = json!({"ev": "Spell", "word": ws, "form": "listed", "tpl": tpl, "active": "American", "entry_dialect": "none",
+                    "listed_exact": true, "lower_listed_exact": false, "entry_is_lower": w.iter().all(|c| !c.is_uppercase()), "known_any_case": true,
+                    "dictionary": if order == 0 { "curated+user" } else { "user+curated" }});
+                match r {
+                    Err(p) => { e["ev"] = json!("SpellPanic"); e["loc"] = json!(p); }
+                    Ok(lints) => {
+                        let mine: Vec<_> = lints.iter().filter(|l| l.span.start < end && start < l.span.end).collect();
+                        e["ntok"] = json!(1); e["flagged"] = json!(!mine.is_empty()); e["span_exact"] = json!(true); e["others"] = json!(lints.len() - mine.len());
+                        e["bad_suggestions"] = json!([]);
+                    }
+                }
+                out.emit(&e);
+            }
+        }
+    }
     let set2 = set.clone();
     let dict2 = dict.clone();
     let evs = par_map(jobs.len(), a.num("threads", 12) as usize,
